@@ -957,17 +957,47 @@ pub mod lf {
     }
 }
 
-// bound: leios-fetch: state in {Idle(None), Idle(Some(Block)), Idle(Some(BlockTxs 0..1)), AwaitingBlock(p), AwaitingBlockTxs(p, {}), Done} x message variants {BlockRequest, Block} / {BlockTxsRequest} / {BlockTxs, Done} (a Bitmaps-owning variant must be concrete: read back through a symbolic variant CBMC no longer sees that the BTreeMap is empty and unrolls clone_subtree: no verdict in 400 s), raw CBOR payloads 0..1 byte, tx lists 0..1 elements, Bitmaps = empty BTreeMap; unwind 3
-table!(c24_q_leiosfetch_m01, lf, 3, 0, 2);
+// bound: leios-fetch: state kind symbolic in {Idle(None), Idle(Some(Block)), Idle(Some(BlockTxs 0..1)), AwaitingBlock(p), AwaitingBlockTxs(p, {}), Done} x one message variant per harness (BlockRequest, Block, BlockTxsRequest, Done), raw CBOR payloads 0..1 byte, tx lists 0..1 elements, Bitmaps = empty BTreeMap; unwind 3. (measured: with the message variant symbolic too, CBMC reads the Bitmaps back through a symbolic variant, no longer sees that the BTreeMap is empty and unrolls clone_subtree: no verdict in 400 s)
+table!(c24_q_leiosfetch_m0, lf, 3, 0, 1);
+table!(c24_q_leiosfetch_m1, lf, 3, 1, 2);
 table!(c24_q_leiosfetch_m2, lf, 3, 2, 3);
-table!(c24_q_leiosfetch_m3, lf, 3, 3, 4);
 table!(c24_q_leiosfetch_m4, lf, 3, 4, 5);
+
+/// leios-fetch, message BlockTxs against every state kind, one state kind per harness (state kind symbolic as well: no verdict in 400 s)
+macro_rules! lf_blocktxs_in {
+    ($name:ident, $sk:expr) => {
+        #[kani::proof]
+        #[kani::unwind(3)]
+        fn $name() {
+            any_vlen();
+            let st = lf::state_k($sk);
+            let msg = lf::msg_k(3);
+            let want = lf::spec(lf::cls(&st), &msg);
+            let r = st.apply(&msg);
+            assert!(r.is_ok() == want.is_some(), "accepted exactly when the specification allows the message in this state");
+            if let Ok(n) = &r {
+                assert!(Some(lf::cls(n)) == want, "next state class is the prescribed one");
+            }
+            kani::cover!(r.is_ok() == ($sk == 4), "pair reached, verdict as in the table");
+            core::mem::forget(r);
+            core::mem::forget(st);
+            core::mem::forget(msg);
+        }
+    };
+}
+// bound: leios-fetch: message BlockTxs{point, {}, 0..1 txs} x one concrete state kind per harness (payload scalars symbolic); unwind 3
+lf_blocktxs_in!(c24_q_leiosfetch_m3_s0, 0);
+lf_blocktxs_in!(c24_q_leiosfetch_m3_s1, 1);
+lf_blocktxs_in!(c24_q_leiosfetch_m3_s2, 2);
+lf_blocktxs_in!(c24_q_leiosfetch_m3_s3, 3);
+lf_blocktxs_in!(c24_q_leiosfetch_m3_s4, 4);
+lf_blocktxs_in!(c24_q_leiosfetch_m3_s5, 5);
 // bound: leios-fetch, one allowed transition, scalars symbolic, Bitmaps empty: carried EB / body / txs; unwind 3
 carry!(c24_q_leiosfetch_c_blockrequest, lf, 0, 3, 0, 3);
 carry!(c24_q_leiosfetch_c_blocktxsrequest, lf, 0, 3, 2, 3);
 carry!(c24_q_leiosfetch_c_block, lf, 3, 4, 1, 3);
 carry!(c24_q_leiosfetch_c_blocktxs_l0, lf, 4, 5, 3, 3, set_vlen(0));
-carry!(c24_q_leiosfetch_c_blocktxs_l1, lf, 4, 5, 3, 3, set_vlen(1));
+carry!(c24_t_leiosfetch_c_blocktxs_l1, lf, 4, 5, 3, 3, set_vlen(1));
 
 macro_rules! lf_bitmap1 {
     ($name:ident, $sk:expr, $mk:expr) => {
